@@ -60,6 +60,10 @@ CHECKS = {
          "C14_no_hook_twice / C14_up_exactly_once / C14_order / C14_up_fails / C14_before_and_after_once_each / C14_down_once_for_used_contexts / C14_second_finish_runs_nothing for all run/context assignments and schedules. Tied to the code by 1..8 runs over 1..3 contexts, all task shapes, failing up/before, through taskrun engine and CLI.",
          "Trusted: Coq kernel; LTS transcription of Run/contextForTask/Finish and ExecutionContext hooks; sync.Once as 'first arriver runs, others wait'; Go engine taskrun, python driver + binary. No axioms.",
          "DESIGN.md section 6 C14", "taskrun+cli"),
+ "C15": ("Coq proof (partial): totality - no input reaches Panic - of the import traversal (every file system, every mis-shapen import field) and of the builders over every definition with possibly-nil bodies and every env file, plus termination of the traversal; the real binary explored with grammar-generated and mutated documents in three formats, YAML specials, env-file shapes, under list/show/graph/validate with crash and time-limit detection; structured empty-body cases compared with the model in Coq",
+         "PARTIAL: C15_load_total / C15_load_ends / C15_build_total / C15_envfile_total hold for all inputs of taskctl's own code between decoders and commands. Panics or hangs inside yaml.v2, encoding/json, go-toml, mapstructure, mergo, doublestar are reachable only by execution: quick = 300 documents x 3-4 commands, thorough = 1 500.",
+         "Trusted: Coq kernel; models of Loader.load and of the builders' partial operations; third-party decoders NOT modelled (explored only); python serialisers/mutators + binary. No axioms.",
+         "DESIGN.md section 6 C15", "cli"),
  "C17": ("Coq proof: termination of the import traversal for every import structure (fuel above the number of existing paths is never exhausted), each file read once, a successful load reads exactly the reachability closure and merges each file's definitions once (in merge order), relative resolution against the importer, a broken file anywhere in the closure yields an error (no panic, no success), global+project lookup laws; the real binary on generated directory trees compared with the model and with an independent closure monitor in Coq",
          "C17_terminates / C17_each_read_once / C17_closure_and_definitions / C17_relative_to_importer / C17_broken_import_is_an_error / C17_global_alongside_project for all file systems and import graphs. Tied to the code EXHAUSTIVELY on every import graph over <=3 files in nested directories (self-loops, cycles), sampled with reversed lists and redundant relative paths, random graphs to 7 files with directory and repeated imports, one file missing/unparsable at every position, mis-shapen import fields, all 64 global/project splits.",
          "Trusted: Coq kernel; transcription of Loader.load/loadDir (imports set, path.Join/Clean on segment lists); mergo on non-conflicting maps = concatenation; yaml.v2, filepath.Glob order, os.Stat; URL imports not modelled; python driver + binary. No axioms.",
